@@ -18,46 +18,70 @@ import re
 from checklib import sh, parse_kv_line, REPO
 
 
+def _functions(flat):
+    """name -> body of every `static inline` function of a preprocessed, whitespace-normalised header
+    (bodies without nested braces, which holds for atomic.h)."""
+    return {m.group(1): m.group(2) for m in re.finditer(r"static inline [\w \*]+?\b(\w+)\s*\([^)]*\)\s*\{([^{}]*)\}", flat)}
+
+
+def _reaches_seq_cst(fns, name, kind, depth=3):
+    """Does `name` perform an atomic read-modify-write of kind add/sub with sequentially consistent
+    order — directly or through helper functions of the same header?"""
+    body = re.sub(r"\s+", "", fns.get(name, ""))
+    if re.search(r"__atomic_%s_fetch\([^;]*,5\)" % kind, body) or re.search(r"__atomic_fetch_%s\([^;]*,5\)" % kind, body) \
+            or re.search(r"__sync_%s_and_fetch\(" % kind, body) or re.search(r"__sync_fetch_and_%s\(" % kind, body):
+        return True
+    if depth == 0:
+        return False
+    return any(_reaches_seq_cst(fns, callee, kind, depth - 1) for callee in fns if callee != name and re.search(r"\b%s\(" % callee, fns.get(name, "")))
+
+
 def atomic_tie(ctx):
-    """T-gen-like syntactic check of lib/src/atomic.h and of the ref_count writers."""
+    """The model assumes atomic, sequentially consistent count updates.  Tie, robust against
+    refactorings that keep behaviour: (a) behavioural probes through the unity build on the REAL
+    code: 16 threads x 200 000 atomic_inc/atomic_dec lose no update; 16 threads retaining and
+    releasing one shared subtree leave its count where it was and free nothing; make_mut returns the
+    cell itself iff it is unshared, else a fresh copy with retained children; (b) the memory order,
+    which no probe can see: after preprocessing atomic.h, atomic_inc / atomic_dec reach — directly
+    or through helpers — a __atomic/__sync read-modify-write with SEQ_CST (token-level, whitespace,
+    macro names and wrapper functions do not matter); (c) no non-atomic write to a subtree ref_count."""
+    exe = ctx.cunit("cunit_c08")
+    if exe:
+        rc, out = sh([exe], input_text="atomic 16 200000\nrc 16 100000\nmm\n", timeout=600)
+        kv = {}
+        for line in out.split("\n"):
+            ws = line.split()
+            if ws:
+                kv[ws[0]] = dict(w.split("=") for w in ws[1:] if "=" in w)
+        a, r, m = kv.get("atomic", {}), kv.get("rc", {}), kv.get("mm", {})
+        ctx.oblige("probe:atomic_inc/dec-lose-no-update(16 threads)", rc == 0 and a.get("after_inc") == a.get("expected") and a.get("after_dec") == "0", str(a) + out[-200:])
+        ctx.oblige("probe:concurrent-retain/release-keep-the-count", rc == 0 and r.get("mid") == r.get("expected_mid") and r.get("end") == r.get("start") and r.get("frees") == "0", str(r))
+        ctx.oblige("probe:make_mut-in-place-iff-unshared", rc == 0 and m == {"unshared_same": "1", "shared_new": "1", "orig_rc": "1", "copy_rc": "1", "kids_rc": "2"}, str(m))
+        ctx.coverage["probes"] = {"atomic": a, "retain_release": r, "make_mut": m}
     probe = os.path.join(ctx.workdir, "atomic_probe.c")
     open(probe, "w").write('#include "atomic.h"\n')
     rc, out = sh(["cc", "-E", "-P", "-I", REPO + "/lib/src", probe])
     flat = re.sub(r"\s+", " ", out)
-    inc = re.search(r"static inline uint32_t atomic_inc\(volatile uint32_t \*p\) \{ return __atomic_add_fetch\(p, 1U, 5\); \}", flat)
-    dec = re.search(r"static inline uint32_t atomic_dec\(volatile uint32_t \*p\) \{ return __atomic_sub_fetch\(p, 1U, 5\); \}", flat)
-    ctx.oblige("tie:atomic_inc=__atomic_add_fetch(SEQ_CST)", rc == 0 and bool(inc), flat[-300:] if not inc else "")
-    ctx.oblige("tie:atomic_dec=__atomic_sub_fetch(SEQ_CST)", rc == 0 and bool(dec), flat[-300:] if not dec else "")
-    src = open(REPO + "/lib/src/subtree.c").read()
-
-    def body(name):
-        m = re.search(r"\n\w[\w \*]*\b%s\([^)]*\)\s*\{" % name, src)
-        if not m:
-            return ""
-        i = m.end()
-        depth = 1
-        while i < len(src) and depth:
-            depth += {"{": 1, "}": -1}.get(src[i], 0)
-            i += 1
-        return src[m.end():i]
-    retain, release = body("ts_subtree_retain"), body("ts_subtree_release")
-    ok_ret = "atomic_inc((volatile uint32_t *)&self.ptr->ref_count)" in retain
-    ok_rel = release.count("atomic_dec((volatile uint32_t *)&") == 2 and "== 0" in release
-    ctx.oblige("tie:ts_subtree_retain-uses-atomic_inc", ok_ret, retain[:200])
-    ctx.oblige("tie:ts_subtree_release-uses-atomic_dec", ok_rel, release[:200])
-    # no other writer of a subtree's ref_count (initialisation to 1 excepted)
+    fns = _functions(flat)
+    ctx.oblige("tie:atomic_inc-reaches-SEQ_CST-add", rc == 0 and _reaches_seq_cst(fns, "atomic_inc", "add"), str(fns.get("atomic_inc"))[:200])
+    ctx.oblige("tie:atomic_dec-reaches-SEQ_CST-sub", rc == 0 and _reaches_seq_cst(fns, "atomic_dec", "sub"), str(fns.get("atomic_dec"))[:200])
+    # no non-atomic write of a subtree's ref_count (initialisation to 1 excepted), comments stripped
     bad = []
+    uses = {"atomic_inc": 0, "atomic_dec": 0}
     for f in ("subtree.c", "subtree.h", "parser.c", "tree.c", "tree_cursor.c", "node.c", "get_changed_ranges.c", "query.c", "lexer.c"):
-        for i, line in enumerate(open(os.path.join(REPO, "lib/src", f)), 1):
+        text = open(os.path.join(REPO, "lib/src", f)).read()
+        text = re.sub(r"/\*.*?\*/", lambda m: "\n" * m.group(0).count("\n"), text, flags=re.S)
+        for i, line in enumerate(text.split("\n"), 1):
             code = line.split("//")[0]
             if re.search(r"ref_count\s*(\+\+|--|\+=|-=|=(?!=))", code) and not re.search(r"ref_count\s*=\s*1\b", code):
                 bad.append("%s:%d" % (f, i))
-            if re.search(r"(\+\+|--)\s*[\w\.\->]*ref_count", code):
+            if re.search(r"(\+\+|--)\s*[\w\.\->\(\)\*&]*ref_count", code):
                 bad.append("%s:%d" % (f, i))
+            if f == "subtree.c":
+                for k in uses:
+                    uses[k] += len(re.findall(r"\b%s\s*\(" % k, code))
     ctx.oblige("tie:no-non-atomic-ref_count-writes", not bad, ",".join(bad))
-    # the licence to write in place
-    mm = body("ts_subtree_make_mut")
-    ctx.oblige("tie:make_mut-in-place-iff-ref_count==1", "ref_count == 1" in mm and "ts_subtree_clone" in mm and "ts_subtree_release" in mm, mm[:200])
+    ctx.oblige("tie:subtree.c-updates-counts-through-atomic_inc/atomic_dec", uses["atomic_inc"] >= 1 and uses["atomic_dec"] >= 1, str(uses))
 
 
 class _JudgeFirst:
